@@ -6,7 +6,10 @@
    grammar, systematic) EVERY proper prefix that ends inside header / string table / root element, and every
    length / index field replaced by each value exceeding what is available, and inline strings without
    terminator, must be refused by wbxml_parser_parse AND by wbxml_conv_wbxml2xml_run with *xml == NULL and
-   length 0 (ASan+UBSan build); the documented irregularities must be accepted.
+   length 0 (ASan+UBSan build); the documented irregularities must be accepted;
+4. object reuse: the same on ONE WBXMLParser object: (valid document with a string table, then a truncated / dangling one) and
+   the header case splits of vlib/parser_streams.reuse_sequences: the dangling document must be refused and every document
+   judged as on a fresh parser.
 """
 import collections
 import hashlib
@@ -40,6 +43,7 @@ def run(ctx):
     quick = ctx.tier == "quick"
     seed = ctx.seed
 
+    rp = None
     if getattr(ctx, "replay", None):
         rp = json.load(open(ctx.replay))
         base, cases = [], []
@@ -105,7 +109,27 @@ def run(ctx):
             judged["tolerance-boundary"] += 1
             if a is None or not a.startswith("err"):
                 concrete.append(dict(rec, must_fail=True, what="beyond the documented irregularity, yet accepted"))
-    for cr in pcr + ccr:
+    # ---- object reuse: a truncated / dangling document must be refused whatever the parser object parsed before ----
+    if getattr(ctx, "replay", None):
+        seqs = [ps.replay_sequence(rp)] if "sequence" in rp else []
+    else:
+        rng = common.Rng(seed, 79)
+        seqs = ps.reuse_sequences(seed, T, cases, 0)
+        mf = [c for c in cases if c.get("must_fail")]
+        withtbl = [c for c in base if c["bytes"][:1] and len(c["bytes"]) > 8]
+        for k in range(300 if quick else 4000):
+            if not mf or not withtbl:
+                break
+            a, b = withtbl[rng.below(len(withtbl))], mf[rng.below(len(mf))]
+            seqs.append([a, b] if k % 3 else [a, b, a, mf[rng.below(len(mf))]])
+    reuse = ps.run_reuse(harness, driver, seqs) if seqs else {"documents": 0, "sequences": 0, "history_dependent": [], "model_disagreements": [],
+                                                              "accepted_must_fail": [], "crashes": [], "kinds": {}}
+    for v in reuse["accepted_must_fail"][:3]:
+        concrete.append(dict(v, what="on a reused WBXMLParser a truncated / dangling document was accepted"))
+    if not reuse["accepted_must_fail"]:
+        for v in reuse["history_dependent"][:3]:
+            concrete.append(dict(v, what="on a reused WBXMLParser the document is judged differently from the same document on a fresh parser"))
+    for cr in pcr + ccr + reuse["crashes"]:
         concrete.append({"kind": "crash-or-sanitizer-report", **cr})
 
     idx = list(range(0, len(cases), max(1, len(cases) // 12)))[:12]
@@ -123,6 +147,12 @@ def run(ctx):
                      "model": (ma[i] or "")[:200]} for i in idx],
         "traces_validated_against_impl": len(cases),
         "correspondence_disagreements_hard": len(corr),
+        "reuse_sequences": reuse["sequences"],
+        "reuse_documents": reuse["documents"],
+        "reuse_must_fail_documents": sum(1 for q in seqs for c in q if c.get("must_fail")),
+        "reuse_accepted_must_fail": len(reuse["accepted_must_fail"]),
+        "reuse_history_dependent": len(reuse["history_dependent"]),
+        "reuse_model_disagreements": len(reuse["model_disagreements"]),
     })
 
     for v in concrete[:5]:
